@@ -125,28 +125,10 @@ def check(case):
         stack.extend(pred[i])
     match_ins = {k for c in exp.values() for k in c}
     upper = {g.seq[i].line for i in can | match_ins}
-    # lower bound: instructions strictly before a match start on a *simple* path label -> match start
-    # (enumerated by DFS with a step budget; every path found is genuine, so a cut-off only weakens the bound)
-    lower_idx = set()
-    budget = [20000]
-
-    def dfs(i, path, on):
-        if budget[0] <= 0:
-            return
-        budget[0] -= 1
-        if i in exp and path:
-            lower_idx.update(path)
-        path.append(i)
-        on.add(i)
-        for s2 in dict.fromkeys(g.succ[i]):
-            if s2 not in on and s2 in can:
-                dfs(s2, path, on)
-        path.pop()
-        on.discard(i)
-
-    if exp and root in can:
-        dfs(root, [], set())
-    lower = {g.seq[i].line for i in lower_idx} - {g.seq[i].line for i in exp}  # a match start need not be marked
+    # lower bound: every instruction (other than a match start) that has a successor from which a match
+    # start can be reached lies on a path label -> ... -> match (paths may go round loops)
+    lower = {g.seq[i].line for i in reach if any(s2 in can for s2 in g.succ[i])} - {g.seq[i].line for i in exp}
+    budget = [1]
     if not cov <= upper:
         raise Violation("covered-too-much", f"covered lines {sorted(cov - upper)} reach no match; {text!r}")
     if not lower <= cov:
